@@ -1,33 +1,12 @@
-(* Calibration sketch (round 0): the synchronous facade (src/sync.rs) as a delegation table — the table below is what
-   tools/translate_sync.py is to regenerate from the source on every run. C14. *)
+(* C14: the synchronous facade (src/sync.rs) as a delegation table. The table itself (L3G.SyncTable) is regenerated from the
+   source by tools/translate_sync.py before every proof stage, so the theorems below are about what sync.rs says now. *)
 From Coq Require Import List String Bool.
+From L3G Require Import SyncTable.
 Import ListNotations.
 Open Scope string_scope.
 
-(* (sync method, async method it blocks on, sync parameter list, arguments passed in order) *)
 Definition row := (string * string * list string * list string)%type.
-Definition sync_table : list row := [
-  ("simple_bind", "simple_bind", ["bind_dn"; "bind_pw"], ["bind_dn"; "bind_pw"]);
-  ("sasl_external_bind", "sasl_external_bind", [], []);
-  ("search", "search", ["base"; "scope"; "filter"; "attrs"], ["base"; "scope"; "filter"; "attrs"]);
-  ("streaming_search", "streaming_search", ["base"; "scope"; "filter"; "attrs"], ["base"; "scope"; "filter"; "attrs"]);
-  ("streaming_search_with", "streaming_search_with", ["adapters"; "base"; "scope"; "filter"; "attrs"], ["adapters"; "base"; "scope"; "filter"; "attrs"]);
-  ("add", "add", ["dn"; "attrs"], ["dn"; "attrs"]);
-  ("compare", "compare", ["dn"; "attr"; "val"], ["dn"; "attr"; "val"]);
-  ("delete", "delete", ["dn"], ["dn"]);
-  ("modify", "modify", ["dn"; "mods"], ["dn"; "mods"]);
-  ("modifydn", "modifydn", ["dn"; "rdn"; "delete_old"; "new_sup"], ["dn"; "rdn"; "delete_old"; "new_sup"]);
-  ("unbind", "unbind", [], []);
-  ("extended", "extended", ["exop"], ["exop"]);
-  ("abandon", "abandon", ["msgid"], ["msgid"]);
-  ("get_peer_certificate", "get_peer_certificate", [], []);
-  ("last_id", "last_id", [], []);
-  ("EntryStream::next", "next", [], []);
-  ("EntryStream::result", "finish", [], []);
-  ("EntryStream::last_id", "last_id", [], [])].
-(* modifiers: (sync method, field of the inner handle it assigns) *)
-Definition modifier_table : list (string * string) :=
-  [("with_search_options", "search_opts"); ("with_controls", "controls"); ("with_timeout", "timeout")].
+(* the modifiers of the asynchronous handle: method, field it assigns (src/ldap.rs with_search_options / with_controls / with_timeout) *)
 Definition async_modifiers : list (string * string) :=
   [("with_search_options", "search_opts"); ("with_controls", "controls"); ("with_timeout", "timeout")].
 
@@ -36,13 +15,21 @@ Definition expected_target (m : string) : string :=
   else if String.eqb m "EntryStream::last_id" then "last_id" else m.
 Definition row_ok (r : row) : bool :=
   let '(m, t, ps, args) := r in String.eqb t (expected_target m) && (if list_eq_dec string_dec ps args then true else false).
-Theorem c14_table_diagonal : forallb row_ok sync_table = true /\ modifier_table = async_modifiers.
-Proof. split; [vm_compute|]; reflexivity. Qed.
+(* the operations of the property's surface must all be there (a sync method that silently disappears is not "diagonal") *)
+Definition required : list string :=
+  ["simple_bind"; "sasl_external_bind"; "search"; "streaming_search"; "streaming_search_with"; "add"; "compare"; "delete"; "modify"; "modifydn";
+   "unbind"; "extended"; "abandon"; "last_id"; "is_closed"; "EntryStream::next"; "EntryStream::result"; "EntryStream::last_id"].
+Definition covers : bool := forallb (fun m => existsb (fun r : row => String.eqb (fst (fst (fst r))) m) sync_table) required.
+
+(* every sync method blocks on the async method of the same name (next -> next, result -> finish) with its own arguments in order;
+   the three modifiers assign the same fields as their async counterparts *)
+Theorem c14_table_diagonal : forallb row_ok sync_table = true /\ covers = true /\ modifier_table = async_modifiers.
+Proof. split; [|split]; vm_compute; reflexivity. Qed.
 
 (* semantics: a sync call is block_on of the async call named by its row, with the row's arguments *)
 Section Equivalence.
 Variables (St Arg Res : Type) (async_step : St -> string -> list Arg -> St * Res).
-Definition lookup (m : string) : option row := find (fun r => String.eqb (fst (fst (fst r))) m) sync_table.
+Definition lookup (m : string) : option row := find (fun r : row => String.eqb (fst (fst (fst r))) m) sync_table.
 Definition sync_step (env : string -> Arg) (s : St) (m : string) : option (St * Res) :=
   match lookup m with Some (_, t, _, args) => Some (async_step s t (map env args)) | None => None end.
 Definition async_direct (env : string -> Arg) (s : St) (m : string) : option (St * Res) :=
@@ -54,5 +41,13 @@ Proof.
   pose proof (proj1 c14_table_diagonal) as Hd. rewrite forallb_forall in Hd. specialize (Hd _ Hin). cbn in Hd.
   apply andb_true_iff in Hd as [Ht Ha]. apply String.eqb_eq in Ht. destruct (list_eq_dec string_dec ps args); [|discriminate]. now subst.
 Qed.
+(* whole operation sequences: running a script through the facade is running it through the async API *)
+Fixpoint run_sync (env : string -> Arg) (s : St) (ms : list string) : list (option Res) :=
+  match ms with [] => [] | m :: r => match sync_step env s m with Some (s', x) => Some x :: run_sync env s' r | None => None :: run_sync env s r end end.
+Fixpoint run_async (env : string -> Arg) (s : St) (ms : list string) : list (option Res) :=
+  match ms with [] => [] | m :: r => match async_direct env s m with Some (s', x) => Some x :: run_async env s' r | None => None :: run_async env s r end end.
+Theorem c14_sequences env ms : forall s, run_sync env s ms = run_async env s ms.
+Proof. induction ms as [|m r IH]; intros s; [reflexivity|]. cbn [run_sync run_async]. rewrite c14_equivalence.
+  destruct (async_direct env s m) as [[s' x]|]; now rewrite IH. Qed.
 End Equivalence.
-Print Assumptions c14_equivalence.
+Print Assumptions c14_sequences.
